@@ -5,6 +5,9 @@ VERIF = os.path.dirname(os.path.dirname(os.path.abspath(__file__)))
 props = {json.loads(l)["id"]: json.loads(l) for l in open(os.path.join(VERIF, "properties.jsonl"))}
 
 CHECKS = {
+ "C16": dict(cat="exploration", technique="stateful property-based testing with a per-hash status model (path check), genuineness of every (transaction, block) pair, and a quiescence check for lost fetches",
+   text="Histories of fetch_header / fetch_transaction / get_transaction over on-chain, fork-only and non-existent hashes with fetch / refresh ticks, timeouts, honest answers in any order, corrupted answers (ban), disconnects, growth, a reorg and filter-sync progress. Every RPC answer must follow the status model, fetched data must be byte-identical to the chain's, every committed (transaction, block hash) pair must be real and its header served, and after a fair drain no requested on-chain hash may remain unfetched.",
+   note="Known finding D9 (transaction -> block association by height after a reorg). Fixed by this check: D10 (fetch lost after a rejected answer).", ref="6/C16"),
  "C06": dict(cat="exploration", technique="property-based mutation testing of BlockFilters answers (13 typed mutators x sender role x batch position) with an authenticity oracle on the accepted prefix and the reference index after an honest finish",
    text="With a quorum of honest proven peers (optionally one more proven peer serving wrong filter hashes) an in-flight GetBlockFilters is answered with mutated filter bytes, shifted start, unequal counts or substituted block hashes by the asked, another or an unproven peer. The filtered height may only advance over filters identical to the chain's, listed hashes of blocks with script activity must be the chain's block at that height, and after an honest finish the reference index must hold.",
    note="Known finding D4 (block hashes unauthenticated; 6 signatures) tolerated and ends the history.", ref="6/C06"),
